@@ -40,6 +40,7 @@ Variable max_level : nat.
 Variable primops : list (string * (string * nat)).
 Variable op_spelling : list (string * string).
 Variable infix_ops : list string.
+Variable postfix_ops : list string.
 
 Definition op_token_ok (sp : string) : bool :=
   negb (starts_atom (TK sp)) && negb (mem_string sp structural_tokens).
@@ -96,6 +97,10 @@ Definition table_ok : bool :=
   && match assoc_string "(-)" op_spelling with Some sp => String.eqb sp "-" | None => false end
   && mem_string "(-)" infix_ops
   && match assoc_string "record/get" op_spelling with Some sp => String.eqb sp "." | None => false end
-  && mem_string "record/get" infix_ops.
+  && mem_string "record/get" infix_ops
+  && forallb (fun n => negb (mem_string n infix_ops)) postfix_ops
+  && mem_string "(&&)" postfix_ops && mem_string "(||)" postfix_ops
+  && forallb (fun e => negb (mem_string (fst e) (map fst prefixops))
+                       && negb (mem_string (fst e) (map fst binops))) primops.
 
 End Check.
